@@ -323,7 +323,7 @@ def repo_docs_job(ctx, invariants, ops):
     import os
     from engine import DEFAULT_CFG
     from vlib import WORK, REPO, cfg_json, cps
-    path = os.path.join(WORK, "repo_docs_%s.ndjson" % ctx.prop)
+    path = os.path.join(WORK, "repo_docs_%s_p%d.ndjson" % (ctx.prop, os.getpid()))
     n = 0
     with open(path, "w") as f:
         for (rel, cfg) in REPO_DOCS:
